@@ -1628,6 +1628,11 @@ def isscalar(x):
     return isinstance(x, (Sym, _b.int, _b.float, _np.generic))
 
 
+def size(x, axis=None):
+    x = asarray(x)
+    return x.size if axis is None else x.shape[axis]
+
+
 def ndim(x):
     return asarray(x).ndim
 
